@@ -102,6 +102,61 @@ def dceAnswer (ws : List String) : String :=
     | _, _ => "bad-line"
   | _ => "bad-line"
 
+/-- `lvn` protocol: `b X OP A B | p A | k A | [ C INV … ]` -/
+partial def parseSimples : List String → Option (List Simple × List String)
+  | "b" :: x :: o :: a :: b :: rest =>
+    match exprOf x, opOf o, operandOf a, operandOf b, parseSimples rest with
+    | some (.var x), some o, some a, some b, some (r, tl) => some (.bin x o a b :: r, tl)
+    | _, _, _, _, _ => none
+  | "p" :: a :: rest =>
+    match operandOf a, parseSimples rest with
+    | some a, some (r, tl) => some (.print a :: r, tl)
+    | _, _ => none
+  | "k" :: a :: rest =>
+    match operandOf a, parseSimples rest with
+    | some a, some (r, tl) => some (.brk a :: r, tl)
+    | _, _ => none
+  | rest => some ([], rest)
+
+partial def parseL : List String → Option (List LStmt)
+  | [] => some []
+  | "[" :: c :: inv :: rest =>
+    match operandOf c, parseSimples rest with
+    | some c, some (body, "]" :: tl) => (parseL tl).map fun r => .sif c (inv == "1") body :: r
+    | _, _ => none
+  | ws =>
+    match parseSimples ws with
+    | some (st :: sts, tl) => (parseL tl).map fun r => (st :: sts).map LStmt.s ++ r
+    | _ => none
+
+def showOpd (o : Operand) : String := showExpr (opdToExpr o)
+
+def showSimple : Simple → String
+  | .bin x o a b => s!"b v{pad2 x} {opName o} {showOpd a} {showOpd b}"
+  | .print a => s!"p {showOpd a}"
+  | .brk a => s!"k {showOpd a}"
+
+def showL : LStmt → String
+  | .s st => showSimple st
+  | .sif c inv body => s!"[ {showOpd c} {if inv then 1 else 0} " ++ " ".intercalate (body.map showSimple) ++ (if body.isEmpty then "]" else " ]")
+
+def lvnAnswer (ws : List String) : String :=
+  match parseL ws with
+  | some p =>
+    let r := lvnL p { ren := [], avail := [] }
+    if r.isEmpty then "-" else " ".intercalate (r.map showL)
+  | none => "bad-line"
+
+/-- `cse <block1> / <block2>`: sorted list of the values hoisted in front of `if v0 {block1} {block2}` -/
+def cseAnswer (ws : List String) : String :=
+  let i := ws.idxOf "/"
+  match parseSimples (ws.take i), parseSimples (ws.drop (i + 1)) with
+  | some (s1, []), some (s2, []) =>
+    let ks := (cseCommon s1 s2).map fun k => s!"{opName k.1}:{showOpd k.2.1}:{showOpd k.2.2}"
+    let ks := (ks.eraseDups.toArray.qsort (· < ·)).toList
+    "hoisted " ++ (if ks.isEmpty then "-" else ",".intercalate ks)
+  | _, _ => "bad-line"
+
 def licmAnswer (ws : List String) : String :=
   match parseS ws with
   | some p =>
@@ -167,6 +222,8 @@ def step (_ : Unit) (line : String) : Unit × String :=
       | _, _, _ => "bad-line"
     | "dce" :: rest => dceAnswer rest
     | "licm" :: rest => licmAnswer rest
+    | "lvn" :: rest => lvnAnswer rest
+    | "cse" :: rest => cseAnswer rest
     | "srloop" :: rest => srAnswer true rest
     | "srorig" :: rest => srAnswer false rest
     | [kind, g, i0, st, b, m, c, fuel] =>
